@@ -162,6 +162,9 @@ func (t *Table) DecrRef() error {
 		if err := t.Delete(); err != nil {
 			return err
 		}
+		if y.VerifEnabled && !t.IsInmemory {
+			y.VerifEvent("fs.remove", t.Filename())
+		}
 	}
 	return nil
 }
@@ -257,6 +260,10 @@ func CreateTable(fname string, builder *Builder) (*Table, error) {
 	y.AssertTrue(written == len(mf.Data))
 	if err := z.Msync(mf.Data); err != nil {
 		return nil, y.Wrapf(err, "while calling msync on %s", fname)
+	}
+	if y.VerifEnabled {
+		y.VerifEvent("fs.create", fname)
+		y.VerifEvent("fs.sync", fname)
 	}
 	return OpenTable(mf, *builder.opts)
 }
